@@ -1457,10 +1457,19 @@ def search(ctx, budget_s):
     t0 = time.time()
     rng = random.Random(ctx.seed + 1414)
     n = 0
+    from dv import c14_multi
+    pending = list(c14_multi.demo_cases())     # matrix, clone, tree edited, one of them recompiled
     while time.time() - t0 < budget_s and n < 20000:
-        if rng.random() < 0.25:
+        r = rng.random()
+        if pending:
+            case = pending.pop(0)
+            obsf, orf = c14_multi.observe_multi, c14_multi.oracle_multi
+        elif r < 0.25:
             case = gen_hist_case(rng, "thorough")
             obsf, orf = observe_hist, oracle_hist
+        elif r < 0.5:
+            case = c14_multi.gen_multi_case(rng, "thorough")
+            obsf, orf = c14_multi.observe_multi, c14_multi.oracle_multi
         else:
             case = gen_case(rng, "thorough")
             obsf, orf = observe, oracle
@@ -1478,18 +1487,21 @@ def search(ctx, budget_s):
 
 
 def gen_overwritten():
-    """True when coq/Gen/Pdm.v is not what the translator derives from this run's source"""
+    """True when coq/Gen/Pdm.v or coq/Gen/PdmObj.v is not what the translators derive from this run's source"""
     import os
-    from dv import gen_pdm
-    try:
-        want = gen_pdm.generate(core.REPO)
-    except Exception:
-        return False          # fail-closed stub: handled by proof_stage
-    try:
-        with open(os.path.join(core.COQ, "Gen", "Pdm.v")) as f:
-            return f.read() != want
-    except OSError:
-        return True
+    from dv import gen_pdm, gen_pdm_obj
+    for mod, fname in ((gen_pdm, "Pdm.v"), (gen_pdm_obj, "PdmObj.v")):
+        try:
+            want = mod.generate(core.REPO)
+        except Exception:
+            continue              # fail-closed stub: handled by proof_stage
+        try:
+            with open(os.path.join(core.COQ, "Gen", fname)) as f:
+                if f.read() != want:
+                    return True
+        except OSError:
+            return True
+    return False
 
 
 def run(tier, seed, replay=None):
@@ -1509,17 +1521,22 @@ def run(tier, seed, replay=None):
             obs = observe_hist(case)
             print("oracle:", oracle_hist(case, obs))
             return 0
+        if case.get("kind") == "multi":
+            from dv import c14_multi
+            obs = c14_multi.observe_multi(case)
+            print("oracle:", c14_multi.oracle_multi(case, obs))
+            return 0
         obs = observe(case)
         print("oracle:", oracle(case, obs))
         return 0
     ok = core.proof_stage(ctx, ["Props/C14.vo"], gen_needed=("__none__",))
     # translator tie: Gen/Pdm.v (regenerated from the current phylogeneticdistance.py / _tree.py) = the model
-    ok_gen = core.proof_stage(ctx, ["Props/C14Gen.vo"], props_file="Props/C14Gen.v", gen_needed=("Pdm",))
+    ok_gen = core.proof_stage(ctx, ["Props/C14Gen.vo"], props_file="Props/C14Gen.v", gen_needed=("Pdm", "PdmObj"))
     if gen_overwritten():
         # another check running concurrently regenerates coq/Gen from its own DV_REPO: build again
         ctx.notes.append("coq/Gen/Pdm.v was overwritten by a concurrent run during the build; translator tie repeated")
         ctx.obligations = [o for o in ctx.obligations if o[1]]
-        ok_gen = core.proof_stage(ctx, ["Props/C14Gen.vo"], props_file="Props/C14Gen.v", gen_needed=("Pdm",))
+        ok_gen = core.proof_stage(ctx, ["Props/C14Gen.vo"], props_file="Props/C14Gen.v", gen_needed=("Pdm", "PdmObj"))
         if gen_overwritten():
             ctx.obligation("coq/Gen/Pdm.v stable during the build (no concurrent regeneration)", False)
             ok_gen = False
@@ -1550,5 +1567,18 @@ def run(tier, seed, replay=None):
     core.corr_stage(ctx, hist_cases, observe_hist, to_coq_hist, HEADER_HIST, "hist_case_ok", oracle=oracle_hist,
                     show_fn="hist_show", nontrivial=nontrivial_hist, search=search, shard=(50 if tier == "quick" else 250),
                     label="hist", sample_fn=lambda c, o: {"kind": "hist", "ops": [st["op"] for st in c["stages"]]})
+    # histories over SEVERAL matrix objects (clone / copy.copy, recompilation after tree edits, clear), every object
+    # observed after every step, container identities up to renaming: coq/Model/C14ObjModel.v
+    from dv import c14_multi
+    nm = 110 if tier == "quick" else 1500
+    multi_cases = c14_multi.demo_cases() + [c14_multi.gen_multi_case(ctx.rng, tier) for _ in range(nm)]
+    for c in multi_cases:
+        ctx.count("kind:multi")
+        ctx.count("multi-ops:" + ",".join(sorted(set(st["op"] for st in c["stages"]))))
+        ctx.count("multi-objects:%d" % sum(1 for st in c["stages"] if st["op"] in ("new", "clone", "copy")))
+    core.corr_stage(ctx, multi_cases, c14_multi.observe_multi, c14_multi.to_coq_multi, c14_multi.HEADER_MULTI, "mhist_case_ok",
+                    oracle=c14_multi.oracle_multi, show_fn="mhist_show", nontrivial=c14_multi.nontrivial_multi, search=search,
+                    shard=(40 if tier == "quick" else 200), label="multi",
+                    sample_fn=lambda c, o: {"kind": "multi", "ops": [st["op"] for st in c["stages"]]})
     return ctx.finish(level="proof",
-                      rule="histories on ONE PhylogeneticDistanceMatrix object (2-7 steps of compile_from_tree / compile_from_dict / clear / nothing over a shared namespace with changing leaf sets, each followed by accessor and mean_pairwise_distance / mean_nearest_taxon_distance queries, mostly unfiltered; every step compared with the path walk of the tree last compiled and with the model recomputed from the current tables); random cases: 40% distance matrices of random rose trees (1-30 leaves, polytomies, unifurcations, dyadic/zero/None lengths, all pairs, summaries under filters/options), 30% Tree.mrca / treemeasure.patristic_distance histories (absent/current/stale encoding, three argument forms, start_node, refresh), 30% NJ/UPGMA runs (additive, ultrametric, arbitrary, unweighted, through CSV, CSV text); thorough adds every rose-tree shape with <=5 leaves; non-trivial = >=3 taxa (and >=2 queries for mrca histories); distinct by full case content")
+                      rule="histories over up to 3 PhylogeneticDistanceMatrix objects (PhylogeneticDistanceMatrix(), clone / copy.copy, compile_from_tree on a fresh tree or on the last tree after pruning taxa / changing lengths in place, compile_from_dict, clear; after every step every object's tables, queries and container identities id() compared with the object-level model up to renaming, and the oracle clause 'an operation on one matrix object changes no query result of another'); histories on ONE PhylogeneticDistanceMatrix object (2-7 steps of compile_from_tree / compile_from_dict / clear / nothing over a shared namespace with changing leaf sets, each followed by accessor and mean_pairwise_distance / mean_nearest_taxon_distance queries, mostly unfiltered; every step compared with the path walk of the tree last compiled and with the model recomputed from the current tables); random cases: 40% distance matrices of random rose trees (1-30 leaves, polytomies, unifurcations, dyadic/zero/None lengths, all pairs, summaries under filters/options), 30% Tree.mrca / treemeasure.patristic_distance histories (absent/current/stale encoding, three argument forms, start_node, refresh), 30% NJ/UPGMA runs (additive, ultrametric, arbitrary, unweighted, through CSV, CSV text); thorough adds every rose-tree shape with <=5 leaves; non-trivial = >=3 taxa (and >=2 queries for mrca histories); distinct by full case content")
